@@ -4,20 +4,20 @@
 #include <utility>
 #include <typeinfo>
 #include <xtl/xany.hpp>
-extern "C" { void hook_ctor(int32_t cls, const void* p); void hook_dtor(int32_t cls, const void* p); void hook_src(int32_t cls, const void* p); int32_t hook_throw(int32_t site); }
+extern "C" { void hook_val(const void* p, int32_t v); void hook_ctor(int32_t cls, const void* p); void hook_dtor(int32_t cls, const void* p); void hook_src(int32_t cls, const void* p); int32_t hook_throw(int32_t site); }
 struct TErr {};
-struct Small { int v; explicit Small(int x) : v(x) { hook_ctor(2, this); }
-    Small(const Small& o) : v(o.v) { hook_src(2, &o); if (hook_throw(1)) throw TErr(); hook_ctor(2, this); }
-    Small(Small&& o) noexcept : v(o.v) { hook_src(2, &o); hook_ctor(2, this); }
-    Small& operator=(const Small& o) { hook_src(2, &o); v = o.v; return *this; } ~Small() { hook_dtor(2, this); } };
-struct Stm { int v; explicit Stm(int x) : v(x) { hook_ctor(3, this); }
-    Stm(const Stm& o) : v(o.v) { hook_src(3, &o); if (hook_throw(2)) throw TErr(); hook_ctor(3, this); }
-    Stm(Stm&& o) : v(o.v) { hook_src(3, &o); if (hook_throw(3)) throw TErr(); hook_ctor(3, this); }
-    Stm& operator=(const Stm& o) { hook_src(3, &o); v = o.v; return *this; } ~Stm() { hook_dtor(3, this); } };
-struct Big { int v; int pad[5]; explicit Big(int x) : v(x), pad{1, 2, 3, 4, 5} { hook_ctor(4, this); }
-    Big(const Big& o) : v(o.v), pad{1, 2, 3, 4, 5} { hook_src(4, &o); if (hook_throw(4)) throw TErr(); hook_ctor(4, this); }
-    Big(Big&& o) noexcept : v(o.v), pad{1, 2, 3, 4, 5} { hook_src(4, &o); hook_ctor(4, this); }
-    Big& operator=(const Big& o) { hook_src(4, &o); v = o.v; return *this; } ~Big() { hook_dtor(4, this); } };
+struct Small { int v; explicit Small(int x) : v(x) { hook_ctor(2, this); hook_val(this, v); }
+    Small(const Small& o) : v(o.v) { hook_src(2, &o); if (hook_throw(1)) throw TErr(); hook_ctor(2, this); hook_val(this, v); }
+    Small(Small&& o) noexcept : v(o.v) { hook_src(2, &o); hook_ctor(2, this); hook_val(this, v); }
+    Small& operator=(const Small& o) { hook_src(2, &o); v = o.v; hook_val(this, v); return *this; } ~Small() { hook_val(this, -1 - v); hook_dtor(2, this); } };
+struct Stm { int v; explicit Stm(int x) : v(x) { hook_ctor(3, this); hook_val(this, v); }
+    Stm(const Stm& o) : v(o.v) { hook_src(3, &o); if (hook_throw(2)) throw TErr(); hook_ctor(3, this); hook_val(this, v); }
+    Stm(Stm&& o) : v(o.v) { hook_src(3, &o); if (hook_throw(3)) throw TErr(); hook_ctor(3, this); hook_val(this, v); }
+    Stm& operator=(const Stm& o) { hook_src(3, &o); v = o.v; hook_val(this, v); return *this; } ~Stm() { hook_val(this, -1 - v); hook_dtor(3, this); } };
+struct Big { int v; int pad[5]; explicit Big(int x) : v(x), pad{1, 2, 3, 4, 5} { hook_ctor(4, this); hook_val(this, v); }
+    Big(const Big& o) : v(o.v), pad{1, 2, 3, 4, 5} { hook_src(4, &o); if (hook_throw(4)) throw TErr(); hook_ctor(4, this); hook_val(this, v); }
+    Big(Big&& o) noexcept : v(o.v), pad{1, 2, 3, 4, 5} { hook_src(4, &o); hook_ctor(4, this); hook_val(this, v); }
+    Big& operator=(const Big& o) { hook_src(4, &o); v = o.v; hook_val(this, v); return *this; } ~Big() { hook_val(this, -1 - v); hook_dtor(4, this); } };
 static_assert(std::is_nothrow_move_constructible<Small>::value && sizeof(Small) <= 2 * sizeof(void*), "Small is stored in place");
 static_assert(!std::is_nothrow_move_constructible<Stm>::value && sizeof(Big) > 2 * sizeof(void*), "Stm and Big are stored on the heap");
 using xtl::any;
